@@ -17,6 +17,13 @@ NA = {
 
 # property -> check description; filled in as units are built
 CHECKS = {
+    "C18": {
+        "category": "proof",
+        "technique": "Kani loop-free harness on the real Drop impl under ghost mapping/descriptor-table contracts (frame condition over the syscall trace)",
+        "text": "Teardown sentence only: for symbolic ring sizes, flags and both mapping layouts (separate SQ/CQ rings; single-mmap where the CQ ring is the SQ ring mapping) dropping the ring issues exactly one munmap per distinct mapping with its exact address/length, exactly one close of the ring descriptor, and no other system call; unrelated mappings/descriptors stay. Loop-free over symbolic inputs, so complete for Drop. The first sentence of C18 (completion results equal the direct system call's) is kernel behaviour and is not decided — partial claim.",
+        "note": "Partial: sentence 1 not decided. Trusted: stub kernel's munmap/close contracts; verif-hooks constructor.",
+        "design_ref": "§4.C18",
+    },
     "C15": {
         "category": "proof",
         "technique": "Verus contracts on trait default methods against an environment contract of the required method (ghost written/pending sequences), bodies extracted verbatim; bounded Kani twins",
